@@ -83,7 +83,8 @@ def Sem.step (s : Sem) : SOp → Sem × List SEv
     if (heldAmount id s.waiters).isNone then (s, [])   -- not queued (never was, or already admitted)
     else
       let s1 := { s with waiters := eraseId id s.waiters }
-      if isFront id s.waiters && s1.size > s1.cur then (s1.notify.1, SEv.cancelled id :: s1.notify.2)
+      -- `if isFront && s.size >= s.cur { s.notifyWaiters() }` (`>=`: a zero-weight waiter fits when size == cur)
+      if isFront id s.waiters && s1.size ≥ s1.cur then (s1.notify.1, SEv.cancelled id :: s1.notify.2)
       else (s1, [.cancelled id])
   | .release id =>
     match heldAmount id s.held with
